@@ -23,7 +23,7 @@ fn lerp(a: f64, b: f64, th: f64) -> f64 {
 fn n_sampled_chunks(tier: Tier) -> u64 {
     match tier {
         Tier::Quick => 5_000,
-        Tier::Thorough => 50_000,
+        Tier::Thorough => 150_000,
     }
 }
 
